@@ -7,7 +7,7 @@ V=/tmp/mutr-$NAME
 git -C /repo worktree remove --force $V 2>/dev/null
 BASE=$(python3 -c "import json;print(json.load(open('$D/meta.json')).get('base_commit','HEAD'))" 2>/dev/null || echo HEAD)
 git -C /repo worktree add -q --detach $V $BASE || exit 3
-git -C $V apply $D/patch.diff || { echo "PATCH-DOES-NOT-APPLY"; git -C /repo worktree remove --force $V; exit 3; }
+git -C $V apply $D/patch.diff 2>/dev/null || { git -C $V apply -3 $D/patch.diff >/dev/null 2>&1 && ! git -C $V diff --name-only --diff-filter=U | grep -q . ; } || { echo "$NAME PATCH-DOES-NOT-APPLY"; git -C /repo worktree remove --force $V; exit 3; }
 cd /verif
 for P in "$@"; do
   VERIF_REPO=$V VERIF_EVIDENCE_DIR=/tmp/mutr-$NAME-ev ./check $P ${TIER:-quick} > $D/check_$P.txt 2>&1; rc=$?
